@@ -3,13 +3,19 @@
 Corpus: compiled on the spot in a scratch directory from generated C sources (vlib.binlab.gen_c_source):
 gcc -c (-O0/-O2/-Os, -g, -ffunction-sections -fPIC), gcc -m32 -c, gcc -nostdlib -static (64/32-bit, PIE),
 gcc -shared (with and without libc, -z now), clang --target=<triple> -c for seven big-endian and five
-little-endian triples (relocatable objects only: no foreign linker).
+little-endian triples (relocatable objects only: no foreign linker); five more recipes (static 64/32/PIE, shared,
+-c) whose source puts 3..10 byte arrays of alignment 1 in sections of their own (.sec_a .. / .rsec_a ..), which the
+linker lays out back to back: runs of 4..6 address-contiguous PROGBITS sections, several of equal size.
 
 Judged per file
  * pristine: bytes(ELF(data)) == data; the parsed section headers, program headers, symbols, relocation
    entries and dynamic entries equal those read by an independent struct-level reader (binlab.parse_elf_raw);
- * api edits (Hypothesis): same-size content edits of sections the loader treats as opaque bytes, through
-   section.content[a:b] = ..., section.content = ..., elf.virt.set(addr, ...): bytes(elf) == the original
+ * api edits (Hypothesis): histories of 1..5 same-size content edits of sections the loader treats as opaque bytes,
+   through section.content[a:b] = ..., section.content = ..., elf.virt.set(addr, ...) inside one section, one
+   elf.virt write (set / [addr] / [a:b]) spanning 1..n sections of a run of address-contiguous PROGBITS sections,
+   section.content = <content object of another section of the same size (same file, else a second parse of the
+   file)> followed by an in-place patch of one of the two (the other keeps its bytes), descriptor bytes of the
+   first record of a note section (slice or whole same-size content): bytes(elf) == the original
    file with exactly those bytes replaced (computed on the raw file), and ELF(bytes(elf)) has the same
    sections / segments / symbols / relocations / dynamic entries and the new contents;
  * byte mutants (Hypothesis): bytes of opaque section contents replaced in the file: round trip is exact and
@@ -136,7 +142,7 @@ def table_fields(raw):
     return out
 
 
-def judge(data, mode, edits):
+def judge(data, mode, edits, stats=None):
     """data: ELF file bytes.  mode: pristine | api | bytes | table.  edits: list of small int tuples
     interpreted relative to the file.  -> (bucket, detail) | None"""
     binlab.quiet_loggers()
@@ -261,25 +267,50 @@ def judge(data, mode, edits):
     expected = bytearray(data)
     new_contents = {}
     applied = 0
-    for sel, off, length, seed in edits:
+    runs = binlab.elf_virt_runs(raw, opaque)
+    notes = binlab.elf_note_ranges(raw, data)
+    donor = [None]
+    what = "?"
+    idx = 0
+
+    last_kind = {}
+    KINDS = ["content-slice", "content", "virt", "virt-span", "content-object", "note-descriptor"]
+
+    touched = []
+
+    def splice(lo, size, idx, o, new):
+        expected[lo + o:lo + o + len(new)] = new
+        new_contents[idx] = bytes(expected[lo:lo + size])
+        last_kind[idx] = KINDS[how]
+        touched.append(idx)
+
+    def tname(k):
+        return binlab.SHT_NAMES.get(raw["shdrs"][k]["type"], "type-%d" % raw["shdrs"][k]["type"])
+
+    for edit in edits:
         if not opaque:
             break
+        # [sel, off, length, seed] (edit kind = seed % 3) or [sel, off, length, seed, kind]
+        sel, off, length, seed = edit[:4]
+        how = edit[4] % 6 if len(edit) > 4 else seed % 3
         lo, size, idx = opaque[sel % len(opaque)]
         sec = e.sh[idx]
-        how = seed % 3
+        if (how == 3 and not runs) or (how == 5 and not notes):
+            how = 0
         try:
             if how == 0:
                 length = 1 + length % min(size, 48)
                 o = off % (size - length + 1)
                 new = binlab.blob(("a", seed), length, nonzero=False)
-                sec.content[o:o + length] = new
                 what = "section.content[a:b] = data"
+                sec.content[o:o + length] = new
+                splice(lo, size, idx, o, new)
             elif how == 1:
-                length, o = size, 0
                 new = binlab.blob(("a", seed), size, nonzero=False)
-                sec.content = new
                 what = "section.content = data"
-            else:
+                sec.content = new
+                splice(lo, size, idx, 0, new)
+            elif how == 2:
                 # virtual view: only for allocated PROGBITS sections of files with an address space
                 sh = raw["shdrs"][idx]
                 length = 1 + length % min(size, 48)
@@ -287,8 +318,8 @@ def judge(data, mode, edits):
                 new = binlab.blob(("a", seed), length, nonzero=False)
                 what = "virt.set(addr, data)"
                 if sh["type"] != 1 or not (sh["flags"] & 2) or sh["addr"] == 0 or raw["ehdr"]["type"] == 1:
-                    sec.content[o:o + length] = new
                     what = "section.content[a:b] = data"
+                    sec.content[o:o + length] = new
                 else:
                     # the address must resolve to this section (first match in section order)
                     first = None
@@ -297,16 +328,116 @@ def judge(data, mode, edits):
                             first = j
                             break
                     if first != idx:
-                        sec.content[o:o + length] = new
                         what = "section.content[a:b] = data"
+                        sec.content[o:o + length] = new
                     else:
                         e.virt.set(sh["addr"] + o, new)
+                splice(lo, size, idx, o, new)
+            elif how == 3:
+                # one write through the virtual view over sections i..j of a run of address-contiguous PROGBITS
+                # sections: from byte a of section i to byte b (excluded) of section j
+                long_runs = [r_ for r_ in runs if len(r_) >= 3]
+                pool_ = long_runs if long_runs and sel % 4 else runs
+                run = pool_[(sel // 4) % len(pool_)]
+                n = len(run)
+                i = off % (2 * n)
+                if i >= n:
+                    i = 0
+                j = i + max(length % (n - i), (length // 16) % (n - i))
+                a = (off // 8) % run[i][1]
+                b = 1 + (seed // 8) % run[j][1]
+                if i == j and b <= a:
+                    a, b = b - 1, a + 1
+                idx = run[i][2]
+                addr = run[i][3] + a
+                total = (run[j][3] + b) - addr
+                new = binlab.blob(("v", seed), total, nonzero=False)
+                form = seed % 3
+                what = "%s over %d consecutive sections" % (("virt.set(addr, data)", "virt[addr] = data",
+                                                             "virt[addr:addr+len] = data")[form], j - i + 1)
+                if form == 0:
+                    e.virt.set(addr, new)
+                elif form == 1:
+                    e.virt[addr] = new
+                else:
+                    e.virt[addr:addr + total] = new
+                pos = 0
+                for k in range(i, j + 1):
+                    klo, ksize, kidx, kaddr = run[k]
+                    start = a if k == i else 0
+                    stop = b if k == j else ksize
+                    splice(klo, ksize, kidx, start, new[pos:pos + stop - start])
+                    pos += stop - start
+                if stats is not None:
+                    stats["edit:virt-span:%s-sections" % (j - i + 1 if j - i < 3 else "4+")] += 1
+            elif how == 5:
+                # bytes of the first descriptor of a note section (e.g. the build id): the record headers and names
+                # stay as they are, the section keeps its size
+                lo, size, idx, doff, dlen = notes[sel % len(notes)]
+                sec = e.sh[idx]
+                length = 1 + length % min(dlen, 48)
+                o = doff + off % (dlen - length + 1)
+                new = binlab.blob(("n", seed), length, nonzero=False)
+                if seed & 1:
+                    what = "note_section.content = data (same size, descriptor bytes changed)"
+                    cur = bytearray(expected[lo:lo + size])
+                    cur[o:o + length] = new
+                    sec.content = bytes(cur)
+                else:
+                    what = "note_section.content[a:b] = data (inside the descriptor)"
+                    sec.content[o:o + length] = new
+                splice(lo, size, idx, o, new)
+                if stats is not None:
+                    stats["edit:note-descriptor"] += 1
+            else:
+                # the content object of a section of the same size is assigned to this section (from the same
+                # file when there is one, else from a second parse of the original file), then one of the two
+                # sections is patched in place: the other one keeps its bytes
+                same = [c for c in opaque if c[1] == size and c[2] != idx]
+                if same:
+                    slo, ssize, sidx = same[off % len(same)]
+                    src = e.sh[sidx]
+                    what = "section.content = content object of same-size section %d" % sidx
+                else:
+                    if donor[0] is None:
+                        donor[0] = elf_init.ELF(data)
+                        donor.append(bytearray(data))        # the donor's own contents (it is patched too)
+                    slo, sidx = None, idx
+                    src = donor[0].sh[idx]
+                    what = "section.content = content object of the same section of another ELF(data)"
+                value = bytes(expected[slo:slo + size]) if same else bytes(donor[1][lo:lo + size])
+                sec.content = src.content
+                splice(lo, size, idx, 0, value)
+                length = 1 + length % min(size, 48)
+                o = (off // 8) % (size - length + 1)
+                new = binlab.blob(("t", seed), length, nonzero=False)
+                if seed & 1:
+                    what += ", then source.content[a:b] = data"
+                    src.content[o:o + length] = new
+                    if same:
+                        splice(slo, size, sidx, o, new)
+                    else:
+                        donor[1][lo + o:lo + o + length] = new
+                else:
+                    what += ", then section.content[a:b] = data"
+                    sec.content[o:o + length] = new
+                    splice(lo, size, idx, o, new)
+                    if same:
+                        new_contents[sidx] = bytes(expected[slo:slo + size])
+                        last_kind[sidx] = KINDS[how]
+                if stats is not None:
+                    stats["edit:transplant:%s" % ("same-file" if same else "second-parse")] += 1
         except Exception as ex:
             return ("exception:edit:%s@%s" % (type(ex).__name__, _where(ex)),
                     "%s on section %d (%r) raised %r" % (what, idx, raw["shdrs"][idx]["name_s"], ex))
-        expected[lo + o:lo + o + length] = new
-        new_contents[idx] = bytes(expected[lo:lo + size])
         applied += 1
+        # a same-size edit leaves the section's declared size alone
+        for k in touched:
+            if e.sh[k].sh.size != raw["shdrs"][k]["size"]:
+                return ("edit:sh_size-changed:after-%s:%s" % (last_kind[k], tname(k)),
+                        "%s on section %d (%r, %d bytes; len(section.content) is now %d): sh.size is now %d"
+                        % (what, k, raw["shdrs"][k]["name_s"], raw["shdrs"][k]["size"], len(bytes(e.sh[k].content)), e.sh[k].sh.size))
+        del touched[:]
     expected = bytes(expected)
     b, err = build(e, "bytes(edited ELF)")
     if err:
@@ -316,8 +447,17 @@ def judge(data, mode, edits):
         if r:
             return r
         d = binlab._first_diff(b, expected)
-        inside = [i for (lo, size, i) in opaque if lo <= d < lo + size]
-        return ("edit:serialised:%s" % ("in-edited-section" if inside and inside[0] in new_contents else "elsewhere"),
+        inside = [i for (lo, size, i) in opaque if lo <= d < lo + size] + [n_[2] for n_ in notes if n_[0] <= d < n_[0] + n_[1]]
+        eh = raw["ehdr"]
+        if eh["shoff"] and eh["shoff"] <= d < eh["shoff"] + eh["shnum"] * eh["shentsize"]:
+            k = (d - eh["shoff"]) // eh["shentsize"]
+            if k in new_contents:
+                return ("edit:serialised:header-of-edited-section:after-" + last_kind[k],
+                        "after %d same-size edits, the section header of section %d (%r, type %d) in bytes(elf) differs from the "
+                        "original one at file offset %#x (+%#x in the entry)"
+                        % (applied, k, raw["shdrs"][k]["name_s"], raw["shdrs"][k]["type"], d, (d - eh["shoff"]) % eh["shentsize"]))
+        return ("edit:serialised:%s" % ("in-edited-section:after-" + last_kind[inside[0]]
+                                        if inside and inside[0] in new_contents else "elsewhere"),
                 "after %d same-size edits, bytes(elf) differs from the spliced original at offset %#x (lengths %d / %d)"
                 % (applied, d, len(b), len(expected)))
     e2, err = parse(b, "ELF(bytes(edited ELF))")
@@ -326,11 +466,18 @@ def judge(data, mode, edits):
     df = diff_snap(snapshot(e2), raw_snapshot(raw))
     if df:
         return ("edit:structures:%s" % df[0], "re-parsed structures differ from the original file: %s" % df[1])
+    longer = None
     for idx, c in new_contents.items():
         got = bytes(e2.sh[idx].content)
         if got != c:
-            return ("edit:contents", "section %d content after re-parse differs at +%#x" % (idx, binlab._first_diff(got, c)))
-    return None
+            if len(got) > len(c) and got[:len(c)] == c:
+                # reported last: a wrong byte in another section is a different matter
+                longer = longer or ("edit:contents:longer-than-sh_size:after-%s:%s" % (last_kind[idx], tname(idx)),
+                                    "section %d (%r): the re-parsed section's content is its %d bytes followed by %d more bytes %r"
+                                    % (idx, raw["shdrs"][idx]["name_s"], len(c), len(got) - len(c), got[len(c):][:16]))
+                continue
+            return ("edit:contents:after-" + last_kind[idx], "section %d content after re-parse differs at +%#x" % (idx, binlab._first_diff(got, c)))
+    return longer
 
 
 def is_nontrivial(raw):
@@ -341,16 +488,20 @@ def is_nontrivial(raw):
 
 class C43(Check):
     pid = "C43"
-    rule = ("corpus compiled per shard from generated C (26 recipes: gcc -c at 3 -O levels/-g/-ffunction-sections, -m32 -c, "
-            "-nostdlib -static 64/32/PIE, -shared x4, clang -c for 7 big-endian + 5 little-endian triples) plus the four linked "
+    rule = ("corpus compiled per shard from generated C (31 recipes: gcc -c at 3 -O levels/-g/-ffunction-sections, -m32 -c, "
+            "-nostdlib -static 64/32/PIE, -shared x4, clang -c for 7 big-endian + 5 little-endian triples, 5 recipes with "
+            "byte arrays in 3..10 custom 1-aligned sections = runs of address-contiguous PROGBITS sections) plus the four linked "
             "ELF samples of example/samples (ARM, AArch64, big-endian PowerPC, x86-64 PIE); per file: pristine "
-            "round trip + parse vs independent reader, then Hypothesis cases of same-size API edits, byte mutants of opaque "
+            "round trip + parse vs independent reader, then Hypothesis cases of 1..5 same-size API edits (content slice, whole content, "
+            "virt write inside a section, virt write spanning consecutive sections, content object of a same-size section "
+            "assigned then one of the two patched in place, descriptor bytes of a note section), byte mutants of opaque "
             "section contents and value-field mutants of symbol/relocation/dynamic tables. Non-trivial: file has a symbol "
             "table and relocation entries; distinct by (file hash, mode, edits).")
     assumptions = [
         "the independent reader (vlib.binlab.parse_elf_raw) follows the ELF gABI layouts for Ehdr/Shdr/Phdr/Sym/Rel/Rela/Dyn",
         "edited / mutated bytes belong to sections whose type the loader does not interpret (not SYMTAB/DYNSYM/STRTAB/"
-        "REL/RELA/DYNAMIC/NOTE/NOBITS) and that overlap no header table; table-field mutants touch only st_value, st_size, "
+        "REL/RELA/DYNAMIC/NOTE/NOBITS) and that overlap no header table, or to the descriptor of the first record of a NOTE "
+        "section (record headers and names untouched); table-field mutants touch only st_value, st_size, "
         "r_offset, r_addend, d_val",
         "big-endian inputs are relocatable objects (no foreign linker in the sandbox) and the repository's md5_ppc32b executable",
     ]
@@ -363,14 +514,20 @@ class C43(Check):
     def run_shard(self, tier, seed, shard, nshards):
         from hypothesis import strategies as st
         res = ShardResult()
-        nrec = len(binlab.elf_recipes())
+        nrec = len(binlab.elf_recipes(extra=True))
         per = 24 if tier == "thorough" else 6
         picks = [(shard * per + j + derive_seed(seed, "rot") % nrec) % nrec for j in range(per)]
         ncases = 260 if tier == "thorough" else 40
         edit = st.tuples(st.integers(0, 63), st.integers(0, 0xFFFF), st.integers(0, 255), st.integers(0, 0xFFFF))
-        case = st.tuples(st.sampled_from(["api", "api", "bytes", "bytes", "table"]), st.lists(edit, min_size=1, max_size=5))
+        # api edits: kind implied by the seed (content slice / whole content / virt write inside one section) or explicit
+        # (3: virt write over consecutive sections, 4: content object of another section, then in-place patch,
+        # 5: descriptor bytes of a note section)
+        api_edit = st.one_of(edit, st.tuples(st.integers(0, 63), st.integers(0, 0xFFFF), st.integers(0, 255),
+                                             st.integers(0, 0xFFFF), st.sampled_from([3, 3, 4, 4, 5, 0, 1, 2])))
+        case = st.sampled_from(["api", "api", "api", "bytes", "bytes", "table"]).flatmap(
+            lambda m: st.tuples(st.just(m), st.lists(api_edit if m == "api" else edit, min_size=1, max_size=5)))
         with binlab.Scratch("c43") as scratch:
-            corpus = binlab.build_elf_corpus(scratch, "%d-%d" % (seed, shard), picks, res)
+            corpus = binlab.build_elf_corpus(scratch, "%d-%d" % (seed, shard), picks, res, extra=True)
         extra = binlab.repo_elf_sample(shard)
         if extra is not None:
             corpus.append(extra)
@@ -382,6 +539,7 @@ class C43(Check):
             res.counters["file:" + label] += 1
             res.counters["class:%d-bit-%s-%s" % (raw["size"], "le" if raw["sex"] == 1 else "be", kind)] += 1
             res.counters["opaque_ranges"] += len(binlab.elf_opaque_ranges(raw))
+            res.counters["runs-of-3+-contiguous-progbits"] += sum(1 for r_ in binlab.elf_virt_runs(raw) if len(r_) >= 3)
             r = judge(data, "pristine", [])
             res.case(nontrivial_key=(fid, "pristine") if nt else None,
                      sample={"label": label, "mode": "pristine", "size": len(data)} if n == 0 else None)
@@ -391,7 +549,7 @@ class C43(Check):
             def one(c, data=data, label=label, nt=nt, fid=fid, packed=packed):
                 mode, edits = c
                 edits = [list(x) for x in edits]
-                r = judge(data, mode, edits)
+                r = judge(data, mode, edits, res.counters)
                 res.case(nontrivial_key=(fid, mode, edits) if nt else None)
                 res.counters["mode:" + mode] += 1
                 if r is not None:
